@@ -375,7 +375,7 @@ func (w *world) drawPorts(it *itemDef) []portDef {
 	if !w.c04 || it.kind == kindNetSet {
 		return nil
 	}
-	n := src.Weighted([]int{40, 30, 18, 12}, "item_nports")
+	n := src.Weighted([]int{25, 35, 25, 15}, "item_nports")
 	var out []portDef
 	for j := 0; j < n; j++ {
 		out = append(out, portDef{
@@ -427,7 +427,12 @@ func (w *world) mutateItem(it *itemDef) *itemState {
 	case 6: // one named port gets another number (same name and protocol)
 		if len(st.ports) > 0 {
 			j := src.Intn(len(st.ports), "port_pick")
-			st.ports[j].num = portNums[src.Intn(len(portNums), "port_num")]
+			for k, pn := range portNums {
+				if pn == st.ports[j].num {
+					st.ports[j].num = portNums[(k+1+src.Intn(len(portNums)-1, "port_num_step"))%len(portNums)]
+					break
+				}
+			}
 		} else {
 			st.ports = w.drawPorts(it)
 		}
@@ -718,7 +723,7 @@ func run(r *core.R) {
 		return out
 	}
 	if w.c04 {
-		w.mutW = swarm([]int{26, 12, 16, 8, 6, 8, 10, 6, 8}, "swarm_mut")
+		w.mutW = swarm([]int{26, 12, 16, 8, 6, 8, 14, 8, 10}, "swarm_mut")
 		w.kindW = swarm([]int{5, 2, 3}, "swarm_kind")
 	} else {
 		w.mutW = swarm([]int{40, 20, 25, 0, 0, 15, 0, 0, 0}, "swarm_mut")
